@@ -27,6 +27,17 @@ Inductive outcome := Synced | Aborted | Failed.
 
 Section Sync.
   Variable valid : list id -> id -> bool.
+  (* finalized height the BFT rules yield for a chain (precommits implied by its headers); the node's STORED finalized
+     height is the running maximum: it is raised while blocks are applied and never lowered when blocks are deleted.
+     Executer.deleteBlock re-reads it on every call. *)
+  Variable finality : list id -> nat.
+
+  (* stored finalized height after applying (the accepted prefix of) [bs] on top of [c], starting from [f] *)
+  Fixpoint fin_walk (f : nat) (c : list id) (bs : list id) : nat :=
+    match bs with
+    | [] => f
+    | b :: r => if valid c b then fin_walk (Nat.max f (finality (c ++ [b]))) (c ++ [b]) r else f
+    end.
 
   (* processor: blocks in order; stops at the first rejected block *)
   Fixpoint apply_all (c : list id) (bs : list id) : list id * bool :=
@@ -75,6 +86,8 @@ Section Sync.
     {| chain := chain n; temp := []; finalized := finalized n; banned := banned n |}.
   Definition with_chain (n : node) (c : list id) : node :=
     {| chain := c; temp := temp n; finalized := finalized n; banned := banned n |}.
+  Definition with_fin (n : node) (f : nat) : node :=
+    {| chain := chain n; temp := temp n; finalized := f; banned := banned n |}.
   Definition with_chain_temp (n : node) (c : list id) (t : list (nat * id)) : node :=
     {| chain := c; temp := t; finalized := finalized n; banned := banned n |}.
 
@@ -91,8 +104,11 @@ Section Sync.
      and how the stream ended; [target_height]: height of the received block that triggered the sync;
      [rounds2]: 2 * number of validators.
      [restore_saves]: the saveTemp flag with which restoreBlocks deletes (true originally, false in the repaired code);
-     [clear_stale]: ClearTempBlocks before the deletions (absent originally, present in the repaired code) *)
-  Definition fast_sync (restore_saves clear_stale : bool) (n : node) (common : option id) (blocks : list id) (e : ending)
+     [clear_stale]: ClearTempBlocks before the deletions (absent originally, present in the repaired code);
+     [ban_always]: the peer is banned (and the temp blocks dropped) also when restoreBlocks itself fails — which happens
+     when the valid blocks applied before the invalid one FINALIZED a height above the common block (originally: error
+     returned, no ban, own blocks left in the temp table) *)
+  Definition fast_sync (restore_saves clear_stale ban_always : bool) (n : node) (common : option id) (blocks : list id) (e : ending)
              (target_height rounds2 : nat) : node * outcome :=
     match common with
     | None => (ban n, Failed)                                   (* errCommonBlockNotFound: ban *)
@@ -111,14 +127,16 @@ Section Sync.
                   let '(n1, ok1) := delete_till n0 hc true in
                   if negb ok1 then (n1, Failed) else
                   let '(c2, ok) := apply_all (chain n1) blocks in
-                  if ok then (clear_temp (with_chain n1 c2), Synced)
+                  let n2 := with_fin (with_chain n1 c2) (fin_walk (finalized n1) (chain n1) blocks) in
+                  if ok then (clear_temp n2, Synced)
                   else
                     (* restoreBlocks: delete the applied blocks again, then re-apply ALL temp blocks by height *)
-                    let '(n3, ok3) := delete_till (with_chain n1 c2) hc restore_saves in
-                    if negb ok3 then (n3, Failed) else
-                    if stale (temp n3) hc then (n3, Failed) else
+                    let '(n3, ok3) := delete_till n2 hc restore_saves in
+                    if negb ok3 then ((if ban_always then ban (clear_temp n3) else n3), Failed) else
+                    if stale (temp n3) hc then ((if ban_always then ban (clear_temp n3) else n3), Failed) else
                     let '(c4, t4, ok') := restore_apply (chain n3) (temp n3) (S hc) (length (temp n3)) in
-                    if ok' then (ban (with_chain_temp n3 c4 t4), Failed) else (with_chain_temp n3 c4 t4, Failed)
+                    if ok' then (ban (with_chain_temp n3 c4 t4), Failed)
+                    else ((if ban_always then ban (clear_temp (with_chain_temp n3 c4 t4)) else with_chain_temp n3 c4 t4), Failed)
               end
         end
     end.
@@ -135,13 +153,14 @@ Section Sync.
             let '(n1, ok1) := delete_till n hc true in
             if negb ok1 then (n1, Failed) else
             let '(c2, ok) := apply_all (chain n1) blocks in
+            let n2 := with_fin (with_chain n1 c2) (fin_walk (finalized n1) (chain n1) blocks) in
             if ok then
               match e with
-              | EndOk => (clear_temp (with_chain n1 c2), Synced)
-              | EndErr => (with_chain n1 c2, Failed)
-              | EndInvalid => (ban (with_chain n1 c2), Failed)
+              | EndOk => (clear_temp n2, Synced)
+              | EndErr => (n2, Failed)
+              | EndInvalid => (ban n2, Failed)
               end
-            else (with_chain n1 c2, Failed)
+            else (n2, Failed)
         end
     end.
 
